@@ -64,8 +64,39 @@
 
 using namespace std;
 
+#ifdef NINJA_VERIF
+void (*g_ninja_verif_point_hook)(const char* name) = NULL;
+void (*g_ninja_verif_fatal_hook)(const char* message) = NULL;
+
+void NinjaVerifPoint(const char* name) {
+  if (g_ninja_verif_point_hook) {
+    g_ninja_verif_point_hook(name);
+    return;
+  }
+  static const char* spec = getenv("VERIF_CRASH_POINT");
+  if (!spec)
+    return;
+  static int hits = 0;
+  size_t n = strlen(name);
+  if (strncmp(spec, name, n) != 0 || (spec[n] != '\0' && spec[n] != ':'))
+    return;
+  int want = spec[n] == ':' ? atoi(spec + n + 1) : 1;
+  if (++hits == want)
+    _exit(77);
+}
+#endif
+
 void Fatal(const char* msg, ...) {
   va_list ap;
+#ifdef NINJA_VERIF
+  if (g_ninja_verif_fatal_hook) {
+    char buf[1024];
+    va_start(ap, msg);
+    vsnprintf(buf, sizeof(buf), msg, ap);
+    va_end(ap);
+    g_ninja_verif_fatal_hook(buf);
+  }
+#endif
   fprintf(stderr, "ninja: fatal: ");
   va_start(ap, msg);
   vfprintf(stderr, msg, ap);
@@ -1037,6 +1068,7 @@ bool ReplaceContent(const string& file_dst, const string& new_content,
     *err = strerror(errno);
     return false;
   }
+  NINJA_VERIF_POINT("replace.mid");
 
   if (rename(new_content.c_str(), file_dst.c_str()) < 0) {
     *err = strerror(errno);
